@@ -93,7 +93,7 @@ pub fn parse_tree(s: &str) -> Option<JsonValue> {
 }
 
 fn parse_tree_at(t: &[&str], i: &mut usize, depth: usize) -> Option<JsonValue> {
-	if depth > 200 {
+	if depth > 3000 {
 		return None;
 	}
 	let tok = *t.get(*i)?;
@@ -363,7 +363,14 @@ fn emit_value(out: &mut Out, v: &JsonValue) {
 	out.count(&format!("depth_{}", depth_of(v).min(9)));
 	out.count_n("text_bytes", text.len() as u64);
 
-	// (a) round trip through the real parser
+	// (a) round trip through the real parser.  Since /repo f7196604 documents nested deeper than
+	// MAX_NESTING_DEPTH = 1024 are rejected by design (stack safety): for those the expected answer is Err.
+	if depth_of(v) > 1024 {
+		let ok = matches!(&parsed, Ok(Err(_)));
+		out.count("deeper_than_limit");
+		out.oracle(ok, "C17 nesting: a document nested deeper than 1024 must be rejected with an error", json!({"kind": "nesting", "how": if parsed.is_err() { "panic" } else { "accepted" }}), json!({"case": format!("C17p {}", hex(text.as_bytes())), "depth": depth_of(v)}));
+		return;
+	}
 	let rt_ok = matches!(&parsed, Ok(Ok(w)) if same(v, w));
 	if !rt_ok {
 		let mut strs = vec![];
@@ -642,7 +649,7 @@ pub fn run(args: &Args) {
 		emit_text(&mut out, t.as_bytes(), "fixed");
 	}
 	// deep nesting
-	for d in [1usize, 8, 64, 300] {
+	for d in [1usize, 8, 64, 300, 1023, 1024, 1025, 1100] {
 		let mut v = JsonValue::Number(1.0);
 		for i in 0..d {
 			v = if i % 2 == 0 { JsonValue::Array(JsonArray(vec![v])) } else { JsonValue::Object(JsonObject(BTreeMap::from([("k".to_string(), v)]))) };
